@@ -199,7 +199,15 @@ impl MemcacheBinaryCodec {
             return Ok(());
         }
 
-        src.reserve(self.header.body_length as usize);
+        // make room for what the announced body still needs, and no more: reserve(body_length)
+        // added the whole body on top of everything already buffered, so a client pipelining
+        // requests could grow the buffer without bound
+        let missing = (self.header.body_length as usize).saturating_sub(src.len());
+        if src.capacity() - src.len() < missing {
+            let mut exact = BytesMut::with_capacity(src.len() + missing);
+            exact.extend_from_slice(&src[..]);
+            *src = exact;
+        }
         Ok(())
     }
 
